@@ -534,11 +534,11 @@ func checkC12(c C12Case, o *h.Obs) *h.Fail {
 
 // c12ZoneDigits: the zone of known finding F-43. Literals that are scaled by a rounded power of two (binary exponents
 // beyond the window in which the scaling is exact) are rounded twice, the first time at precision+19 digits. When the
-// exact value lies within 10^-(precision+17) (relative) of a number of `precision` digits, the first rounding can put
+// exact value lies within 10^-(precision+16) (relative) of a number of `precision` digits, the first rounding can put
 // it on the other side of that number and a directed mode then returns the neighbour beyond it: more than one unit
 // away from the exact value, by a hair. Outside that zone a result must be one of the two neighbours of the exact
 // value ("within one unit in the last place"); inside it, the neighbour beyond the near number is tolerated too.
-const c12ZoneDigits = 17
+const c12ZoneDigits = 16
 
 // c12Faithful: ex holds the exact value cut after at least precision+c12ZoneDigits+1 digits (plus sticky).
 func c12Faithful(c C12Case, o *h.Obs, got h.Snap, ex model.X, wantPrec uint, what string) *h.Fail {
@@ -628,7 +628,7 @@ func checkC12Mixed(c C12Case, o *h.Obs, got h.Snap, err error, wantPrec uint) *h
 	return c12Faithful(c, o, got, ex, wantPrec, c.S)
 }
 
-const ruleC12 = "rapid-generated inputs of three kinds. (dec) base-10 literals of the documented grammar with the value known by construction: sign, digits split around the point anywhere, leading/trailing zeros, '_' separators in legal positions, e/E exponents over the whole int32 range and beyond, up to 600 (quick) / 3000 (thorough) digits with rounding patterns; through Parse, SetString, ParseDecimal, UnmarshalText and Scan (fmt.Sscan with surrounding blanks; fmt.Sscanf with the literal directly followed by -, +, :, comma or / and a second number); receiver precision 0 or 1..80, six modes. Oracle: literal's exact value rounded once (value, accuracy, precision 34 if it was 0, base 10); scaled exponent outside int32 => error. (any) literals in base 2/8/16 or with p exponents, one- and two-character mutations of valid literals (deleted/inserted/replaced/duplicated characters, misplaced '_'), short strings over the alphabet of number characters, a list of hostile constants: acceptance and detected base must coincide with math/big Float.Parse (compared when the exponent field is <= 10000 in magnitude), the value must be exact when its decimal expansion fits the precision and within 1 ulp of the correctly rounded value otherwise (exact rational taken from math/big at a precision that makes it exact). (mixed) binary/octal mantissas with fractional digits and a decimal e exponent over the whole int32 range and at its ends: value = exact binary mantissa (math/big) x 10^e with the range rule (underflow to a signed zero, overflow to infinity), exact when representable, 1 ulp otherwise; rejection accepted only within 80 of a range end. (pow2near) decimal mantissas with a p exponent of any size up to +-(2^31-200), constructed from a chosen P-digit number R, exponent k and closeness c as m = floor or ceil(R*10^j/2^k) with P+c digits, so that m*2^k lies 10^-(P+9)..10^-(P+21) (relative) from R*10^j; reference in 700-bit binary floating point; outside the zone of known finding F-43 (closer than 10^-(P+17)) the result must be one of the two neighbours of the exact value. The same rule (a neighbour of the exact value; F-43 zone tolerated) holds for every rounded result of the any and mixed kinds. (expfield) short mantissas with exponent fields at the edges of int64 and int32 (+-2^63, +-(2^63-1), -2^63-1, 2^64, +-2^32, +-2^31, twenty nines, zero-padded fields): a field that does not fit an int64 must be rejected, a zero mantissa with a valid field (e or p) is a signed zero, a non-zero base-10 literal is accepted exactly when its scaled exponent lies in the int32 range; a non-zero mantissa with a p exponent is rejected when the exponent lies outside the int32 range (as math/big does) and otherwise accepted with a value of the right order of magnitude (fields from -2^63 to 2^63-1, +-7.2e9, +-2^32, +-(2^31+100), +-2147483000, +-10^9). Always: no panic, err != nil => returned *Decimal is nil, receiver canonical. Non-trivial = an accepted literal that needs rounding, or a rejected string; distinct by case."
+const ruleC12 = "rapid-generated inputs of three kinds. (dec) base-10 literals of the documented grammar with the value known by construction: sign, digits split around the point anywhere, leading/trailing zeros, '_' separators in legal positions, e/E exponents over the whole int32 range and beyond, up to 600 (quick) / 3000 (thorough) digits with rounding patterns; through Parse, SetString, ParseDecimal, UnmarshalText and Scan (fmt.Sscan with surrounding blanks; fmt.Sscanf with the literal directly followed by -, +, :, comma or / and a second number); receiver precision 0 or 1..80, six modes. Oracle: literal's exact value rounded once (value, accuracy, precision 34 if it was 0, base 10); scaled exponent outside int32 => error. (any) literals in base 2/8/16 or with p exponents, one- and two-character mutations of valid literals (deleted/inserted/replaced/duplicated characters, misplaced '_'), short strings over the alphabet of number characters, a list of hostile constants: acceptance and detected base must coincide with math/big Float.Parse (compared when the exponent field is <= 10000 in magnitude), the value must be exact when its decimal expansion fits the precision and within 1 ulp of the correctly rounded value otherwise (exact rational taken from math/big at a precision that makes it exact). (mixed) binary/octal mantissas with fractional digits and a decimal e exponent over the whole int32 range and at its ends: value = exact binary mantissa (math/big) x 10^e with the range rule (underflow to a signed zero, overflow to infinity), exact when representable, 1 ulp otherwise; rejection accepted only within 80 of a range end. (pow2near) decimal mantissas with a p exponent of any size up to +-(2^31-200), constructed from a chosen P-digit number R, exponent k and closeness c as m = floor or ceil(R*10^j/2^k) with P+c digits, so that m*2^k lies 10^-(P+9)..10^-(P+21) (relative) from R*10^j; reference in 700-bit binary floating point; outside the zone of known finding F-43 (closer than 10^-(P+16)) the result must be one of the two neighbours of the exact value. The same rule (a neighbour of the exact value; F-43 zone tolerated) holds for every rounded result of the any and mixed kinds. (expfield) short mantissas with exponent fields at the edges of int64 and int32 (+-2^63, +-(2^63-1), -2^63-1, 2^64, +-2^32, +-2^31, twenty nines, zero-padded fields): a field that does not fit an int64 must be rejected, a zero mantissa with a valid field (e or p) is a signed zero, a non-zero base-10 literal is accepted exactly when its scaled exponent lies in the int32 range; a non-zero mantissa with a p exponent is rejected when the exponent lies outside the int32 range (as math/big does) and otherwise accepted with a value of the right order of magnitude (fields from -2^63 to 2^63-1, +-7.2e9, +-2^32, +-(2^31+100), +-2147483000, +-10^9). Always: no panic, err != nil => returned *Decimal is nil, receiver canonical. Non-trivial = an accepted literal that needs rounding, or a rejected string; distinct by case."
 
 var propC12 = &h.Prop[C12Case]{ID: "C12", Rule: ruleC12, Gen: genC12, Check: checkC12, Matchers: map[string]func(C12Case) bool{}}
 
